@@ -703,7 +703,10 @@ class DictRefsContainer(RefsContainer):
           timezone: Optional timezone for reflog
           message: Optional message for reflog
         """
-        old = self.follow(name)[-1]
+        try:
+            old = self.follow(name)[-1]
+        except SymrefLoop:
+            old = None
         new = SYMREF + other
         self._refs[name] = new
         self._notify(name, new)
@@ -1278,7 +1281,12 @@ class DiskRefsContainer(RefsContainer):
         f = GitFile(filename, "wb")
         try:
             f.write(SYMREF + other + b"\n")
-            sha = self.follow(name)[-1]
+            try:
+                sha = self.follow(name)[-1]
+            except SymrefLoop:
+                # the old value is only needed for the reflog; a ref that is
+                # part of a loop must still be re-pointable
+                sha = None
             self._log(
                 name,
                 sha,
@@ -1543,7 +1551,7 @@ class DiskRefsContainer(RefsContainer):
                     sha = self[ref]
                     if sha:
                         refs_to_pack[ref] = sha
-                except KeyError:
+                except (KeyError, SymrefLoop):
                     # Broken ref, skip it
                     pass
 
